@@ -32,6 +32,11 @@ Lemma dispatch_selfcal : forall rsqrt t N sols names_at tbl targets, t = "GPHASE
   gain_like_correction rsqrt t N sols names_at tbl targets = Some (gain_corr N sols (Some targets)).
 Proof. intros rsqrt t N sols names_at tbl targets [E|E]; subst; reflexivity. Qed.
 
+Lemma dispatch_is_spec : forall rsqrt t N sols names_at tbl targets,
+  gain_like_correction rsqrt t N sols names_at tbl targets =
+  spec_gain_like_correction rsqrt t N sols names_at tbl targets.
+Proof. reflexivity. Qed.
+
 (* what the model takes from the source besides the tables *)
 Lemma interp_edges :
   (bandpass_left_invalid, bandpass_right_invalid) = (true, true) /\
